@@ -157,6 +157,14 @@ def _const_node_updated(A, x):
     return x * s
 
 
+def _const_node_returned(A, x):
+    # the updated constant node IS the result: every evaluation must hand out its own array
+    acc = A.const(np.array([1.0, 2.0, 4.0]))
+    acc += x * x
+    acc *= 2.0
+    return acc
+
+
 def _const_node_updated_through_view(A, x):
     # the constant node is only ever written through a VIEW of itself
     buf = A.const(np.array([[1.0, 2.0, 4.0], [0.5, 0.25, 3.0]]))
@@ -256,6 +264,37 @@ def _setitem_advanced(A, x):
     return y * y + z * x
 
 
+def _setitem_repeated_index(A, x):
+    # an index list that names one entry twice: the LAST value written wins (NumPy semantics),
+    # the overwritten one has no influence on the result
+    y = A.zeros(3, dtype=x)
+    y[[0, 0, 2]] = x * x
+    w = A.zeros((2, 3), dtype=x)
+    w[[1, 1], [2, 2]] = x[:2] * x[1:]
+    w[0, [1, 1, 0]] = A.sin(x)
+    return y * x + w[0] * w[1] + w[1]
+
+
+def _index_separated(A, x):
+    # advanced indices separated by a slice (NumPy moves the index axes to the front), read and written
+    a = x[0, :, [0, 1]]                   # shape (2, 3)
+    b = x[[0, 1], :, [1, 0]]              # shape (2, 3)
+    y = A.zeros((2, 3, 2), dtype=x)
+    y[[1, 0], :, [0, 1]] = a * b
+    y[0, 1:, [1]] = x[1, 1:, [0]] * 2.0
+    return y * x + A.sum(a * b)
+
+
+def _setitem_list_rhs(A, x):
+    # constants given as python lists / tuples on the right of an item assignment
+    y = A.zeros((2, 3), dtype=x)
+    y[0] = x * x
+    y[1, ::2] = [5., 6.]
+    y[1, 1] = x[0] * x[2]
+    y[0, 1:] = (0.5, 0.25)
+    return y[0] * y[1] + x
+
+
 def _real_of_real_alias(A, x):
     # numpy.real of real data is the array itself: a write through the result changes the operand
     z = 1.0 * x
@@ -326,7 +365,9 @@ def _paused_twice(A, x):
     return v * u + x
 
 
-def catalogue():
+def catalogue(ndonly=False):
+    """programs tagged 'ndonly' (plain-array buffers that take traced values: no polynomial
+    recording possible) are listed only on request"""
     P = []
 
     def add(name, f, **kw):
@@ -377,6 +418,8 @@ def catalogue():
     add('x**3.0', lambda A, x: x ** 3.0, group='pow')
     add('sum((x-c)**2.)', lambda A, x: A.sum((x - A.c['c']) ** 2.), group='pow', consts={'c': (3,)})
     add('x**array(2)', lambda A, x: x ** np.array(2), group='pow')
+    add('sum(x**array([1,2,3])*x[::-1])', lambda A, x: A.sum(x ** np.array([1, 2, 3]) * x[::-1]), group='pow')
+    add('x**array([2.,0.,3.])', lambda A, x: x ** np.array([2., 0., 3.]) + x, group='pow')
     add('x**-2.0', lambda A, x: x ** -2.0, dom='nonzero', group='pow')
     # ---- elementary / special ------------------------------------------------
     for name, dom in [('exp', 'any'), ('expm1', 'any'), ('log', 'pos'), ('log1p', 'gtm1'), ('sqrt', 'pos'),
@@ -425,6 +468,7 @@ def catalogue():
     add('augmented assignment through a second name', _inplace_alias, dom='nonzero', group='buffer')
     add('**= through a view of a buffer', _ipow_through_view, group='buffer')
     add('constant node updated in place', _const_node_updated, group='buffer')
+    add('constant node updated in place and returned', _const_node_returned, group='buffer', tags=['ndonly'])
     add('constant node updated through views of itself', _const_node_updated_through_view, group='buffer')
     add('augmented assignment on a 0-d accumulator', _accumulator_0d, group='buffer')
     add('x*x.flat[3]', _flat_read, shape=(2, 2), group='index')
@@ -434,6 +478,9 @@ def catalogue():
     add('buffer, slots reset to constants after use', _buf_reset_to_constant, group='buffer')
     add('augmented assignment on an element of a buffer', _inplace_on_element, group='buffer', tags=['utpmonly'])
     add('buffer, item assignment through index lists and masks', _setitem_advanced, group='buffer')
+    add('buffer, item assignment through an index list naming an entry twice', _setitem_repeated_index, group='buffer')
+    add('index arrays separated by a slice, read and written', _index_separated, shape=(2, 3, 2), group='index')
+    add('buffer, constants given as python lists and tuples', _setitem_list_rhs, group='buffer')
     add('write through real() of a real-valued node', _real_of_real_alias, group='buffer')
     add('scratch index / exponent / matrix constants re-used during recording', _scratch_index_and_exponent, dom='pos', group='buffer')
     add('item assignment through a scratch index array refilled between writes', _scratch_index_setitem, group='buffer')
@@ -449,6 +496,7 @@ def catalogue():
     add('sum', lambda A, x: A.sum(x * x), group='reduce')
     add('sum(mat)', lambda A, x: A.sum(x * x), shape=(2, 3), group='reduce')
     add('sum(axis=0)', lambda A, x: A.sum(x * x, axis=0), shape=(2, 3), group='reduce')
+    add('sum(axis=(0,2))*sum(axis=(-1,))', lambda A, x: A.sum(x * x, axis=(0, 2)) * A.sum(x, axis=(-1,))[0], shape=(2, 3, 2), group='reduce')
     add('sum(axis=1)', lambda A, x: A.sum(x * x, axis=1), shape=(2, 3), group='reduce')
     add('sum(axis=-1)', lambda A, x: A.sum(x * x, axis=-1), shape=(2, 3), group='reduce')
     add('sum(square,axis=0)', lambda A, x: A.sum(x * x, axis=0), shape=(2, 2), group='reduce')
@@ -537,6 +585,15 @@ def catalogue():
             y = y + A.sum(A.outer(Q[:, j], Q[:, j]) * A.c['c%d' % j])
         return y
 
+    def _eigh1(A, x):
+        # the relaxed problem A Q = Q L with a block-diagonal L: sign-invariant functions of Q, and ALL
+        # entries of L weighted (the entries outside the diagonal blocks are structurally zero)
+        L, Q, b = A.eigh1(x)
+        y = A.sum(L * A.c['cl'])
+        for j in range(2):
+            y = y + A.sum(A.outer(Q[:, j], Q[:, j]) * A.c['c%d' % j])
+        return y
+
     def _eigh_vals(A, x):
         l, Q = A.eigh(x)
         return l * l
@@ -599,6 +656,7 @@ def catalogue():
     add('cholesky(2x2)', _chol, shape=(2, 2), group='factor', tags=['fac:cholesky', 'symmetric'], consts={'cl': (2, 2)})
     add('eigh(2x2)', _eigh, shape=(2, 2), group='factor', tags=['fac:eigh', 'symmetric'], consts={'cv': (2,), 'c0': (2, 2), 'c1': (2, 2)})
     add('eigh-values(2x2)', _eigh_vals, shape=(2, 2), group='factor', tags=['fac:eigh', 'symmetric'])
+    add('eigh1(2x2)', _eigh1, shape=(2, 2), group='factor', tags=['fac:eigh', 'symmetric'], consts={'cl': (2, 2), 'c0': (2, 2), 'c1': (2, 2)})
     add('eig-function(2x2)', _eig_fun, shape=(2, 2), group='factor', tags=['fac:eig', 'Dmax2'], consts={'c': (2, 2)})
     add('eig-values(2x2)', _eig_vals, shape=(2, 2), group='factor', tags=['fac:eig', 'Dmax2'])
     add('svd(2x2)', _svd, shape=(2, 2), group='factor', tags=['fac:svd', 'Dmax2', 'D1only'], consts={'cv': (2,), 'c0': (2, 2), 'c1': (2, 2)})
@@ -623,6 +681,11 @@ def catalogue():
     add('imag(z)+imag(z*z)', lambda A, x: (lambda z: A.imag(z) + A.imag(z * z))(A.fft.fft(x)), shape=(4,), group='fft')
     add('imag(w)*real(w*w)', lambda A, x: (lambda w: A.imag(w) * A.real(w * w))(x * (1 + 2j)), group='fft')
     add('real(x)*x', lambda A, x: A.real(x) * x + x * x * x, group='fft')
+    # one real and one complex operand of dot / outer (matrix.vector, vector.matrix)
+    add('real(dot(c, w))', lambda A, x: A.real(A.dot(A.c['c'], x * (1 + 2j))) * x[:2], group='fft', consts={'c': (2, 3)})
+    add('imag(dot(w, c))', lambda A, x: A.imag(A.dot(x * (2 - 1j), A.c['c'])) + A.real(A.dot(x, A.c['c'] * (1 + 1j))), group='fft', consts={'c': (3, 2)})
+    add('real(dot(x, w))', lambda A, x: A.real(A.dot(x, x[0] * (1 + 2j) + 1j)) * A.imag(A.dot(x[1] * (2 - 1j), x.T)), shape=(2, 3), group='fft')
+    add('imag(outer(x, w))', lambda A, x: A.imag(A.outer(x, x * (1 + 2j) + 1j)), group='fft')
     add('real(conj(w)*w*w)', lambda A, x: (lambda w: A.real(A.conjugate(w) * (w * w)))(x * (1 + 2j)), group='fft')
     add('imag(conj(fft(x))*x)', lambda A, x: A.imag(A.conjugate(A.fft.fft(x)) * x), shape=(4,), group='fft')
     add('real(fft(x,n=2))', lambda A, x: A.real(A.fft.fft(x, n=2)) * x[:2], shape=(4,), group='fft')
@@ -647,11 +710,11 @@ def catalogue():
     add('sin(x)*x', lambda A, x: A.sin(x) * x, group='comp')
     add('sqrt(x)*x[0]', lambda A, x: A.sqrt(x) * x[0], dom='pos', group='comp')
     add('inv*det', lambda A, x: A.inv(x) * A.trace(x), shape=(2, 2), group='comp')
-    return P
+    return P if ndonly else [p for p in P if 'ndonly' not in p.tags]
 
 
 def by_name():
-    return {p.name: p for p in catalogue()}
+    return {p.name: p for p in catalogue(ndonly=True)}
 
 
 def fanout(prog, where):
